@@ -412,6 +412,16 @@ Definition astate_ops : ops astate :=
     (fun s now => Ok (if now + 500 * a_ttl s <=? a_expires s
                       then Some (ka_ttl_spec (a_ttl s) (a_created s) now) else None)).
 
+(* astate_ops with the code's known-answer rule (half life counted from `created` only): used
+   to classify a rejected trace as the known finding "shortened shared record still listed" *)
+Definition astate_ops_created_ka : ops astate :=
+  mkOps astate (op_new astate_ops) (op_expired astate_ops) (op_refresh astate_ops) (op_refresh_once astate_ops)
+    (op_reset astate_ops) (op_should_flush astate_ops) (op_shorten astate_ops)
+    (fun s now => Ok (if now <=? a_created s + 500 * a_ttl s
+                      then Some (ka_ttl_spec (a_ttl s) (a_created s) now) else None)).
+Definition spec_run_created_ka (cfg : simcfg) (steps : list (simstep)) : res (list iterobs) :=
+  sim_run astate astate_ops_created_ka cfg [] steps.
+
 (* daemon-level monitor: the observations the property text prescribes for this history *)
 Definition spec_run (cfg : simcfg) (steps : list (simstep)) : res (list iterobs) :=
   sim_run astate astate_ops cfg [] steps.
